@@ -54,11 +54,11 @@ def smetric_line(rng):
 
 
 def generate(rng, tier):
-    n = {"quick": 500, "thorough": 15000, "search": 4000}.get(tier, 500)
+    n = {"quick": 1500, "thorough": 15000, "search": 4000}.get(tier, 500)
     cases = [[smetric_line(rng)] for _ in range(n)]
     c17 = importlib.import_module("props.C17")
     cases += [c for c in c17.generate(rng, tier) if c[0].startswith("vote hung")]
-    nh, steps = {"quick": (16, 25), "thorough": (300, 50), "search": (80, 30)}.get(tier, (16, 25))
+    nh, steps = {"quick": (40, 25), "thorough": (300, 50), "search": (80, 30)}.get(tier, (16, 25))
     for i in range(nh):
         cases.append(history(rng, ["sort", "bsort"][i % 2], steps, api_mix=False))
     return cases
